@@ -627,14 +627,14 @@ pub fn run(t: Tier) -> i32 {
     let mut rep = Report::new(ID, t, "model_checking");
     rep.rule = format!(
         "model: two contexts (name -> source over 3 names, 17 colliding sources: a variable, a reference to another program, a macro whose loop variable is named like a bound variable, map macros, a macro shadowing w and reading q, a program referring to itself, keys differing only in case, two texts differing only in blanks inside a literal, a map comparison with a failing entry, two programs without identifiers and two readers of them - one as a plain operand, one inside a foldable call) and two binding sets (2 variables, 4 values); 29 operations (add/replace x17, bind/rebind incl. a double equal to a bound int under == and an empty text, bind/rebind x4, clone context, clone bindings, exec x3, inspect details). bfs: breadth-first search to depth {} (or closure) deduplicated on the canonical abstract state, every transition executed on real objects rebuilt by replaying the history and the successor checked on every arrival; histories: every history of length 1..{} without deduplication ({} histories). interference: each of 126 programs over regex patterns, zones, units, durations, timestamps and map macros gives, after all the others ran twice on the same thread, the result it gives on a thread that ran nothing else. Invariants after every history: the real objects hold exactly the model state (sources, bytecode and reported parameters equal to a fresh compile, bindings); every stored program under both binding sets, executed twice (40 times for histories of length <= 2), equals the result of freshly built objects holding the same abstract state; every exec inside the history gave what the state before it determines. Non-trivial = every history; distinct by history",
-        t.pick(6, 12),
+        t.pick(6, 8),
         t.pick(4, 5),
         (1..=t.pick(4u32, 5u32)).map(|l| (OPS.len() as u64).pow(l)).sum::<u64>()
     );
     let mut acc = Acc::default();
     acc.family = "bfs".into();
     let t0 = std::time::Instant::now();
-    let ex = bfs(t.pick(6, 12), &mut acc);
+    let ex = bfs(t.pick(6, 8), &mut acc);
     eprintln!("[C11] bfs states {} transitions {} depth {} comparisons {} {:.1}s", ex.states, ex.transitions, ex.max_depth, ex.comparisons, t0.elapsed().as_secs_f64());
     rep.family_sizes.push(("bfs".into(), ex.transitions));
     rep.acc.merge(acc);
